@@ -100,6 +100,19 @@ def oracle(f, ops, rng):
     S = est.split_channel_data(J, skip_channels=list(skip_given))
     if len(S) != len(chans) or not all(np.array_equal(a, b) for a, b in zip(S, chans)):
         fails.append(rep("split-join", "split_channel_data(join_channel_data(.)) is not the identity on the supplied channels"))
+    # ... whatever array types the caller's channels have (a binary / one-hot channel kept as integers next to float ones)
+    if len(chans) >= 2:
+        for dts in ((np.int64, np.float64), (np.float32, np.float64), (np.uint8, np.float64)):
+            mixed = [(np.rint(c) if np.issubdtype(dts[0], np.integer) else c).astype(dts[0]) if jx == 0 else c.astype(dts[1]) for jx, c in enumerate(chans)]
+            want = [np.asarray(c, dtype=float) for c in mixed]
+            try:
+                S2 = est.split_channel_data(est.join_channel_data(mixed, skip_channels=list(skip_given)), skip_channels=list(skip_given))
+            except Exception as e:
+                fails.append(rep("split-join-dtype", f"join/split of channels of dtypes {[np.dtype(d).name for d in dts]} raises {type(e).__name__}"))
+                break
+            if len(S2) != len(want) or not all(np.array_equal(np.asarray(a, dtype=float), b) for a, b in zip(S2, want)):
+                fails.append(rep("split-join-dtype", f"join/split changes the values of channels supplied with dtypes {[np.dtype(d).name for d in dts]}"))
+                break
     return fails
 
 
